@@ -52,6 +52,14 @@ CHECKS = {
    text="Every exported sm9_z256 integer/Fp/Fn/Fp2/Fp4/Fp12/G1/G2 function equals the model on in-domain operands; the pairing satisfies bilinearity, order and non-degeneracy; signatures, ciphertexts and exchange keys equal the model and are rejected under any other identity, message, key, truncation or single-bit flip (all flips for a few instances, sampled otherwise). Exploration only.",
    note="Trusted: vlib/ref/sm9.py. The pairing value is not compared with an independent Miller loop. C3 is HMAC-SM3 as sm9.h documents (differs from GM/T 0044.4's MAC) - noted, not alarmed.",
    design="4/C17"),
+ "C04": dict(level="exploration", technique="property-based differential testing (Hypothesis) of every cipher/mode interface against OpenSSL 3 primitives and Python modes written from the standards; round-trip, chunking-invariance, in-place and NULL-out size-query discipline with exactly-sized ASan heap buffers; 4 build variants",
+   text="Generated (key/IV/counter-at-carry pattern, length biased to block boundaries 0..4 KiB with a few up to 64 KiB, partition, CFB s 1..16, GCM IV 1..64 incl. IVs solved so the 32-bit counter wraps, tag 12..16, CCM nonce 7..13 / tag 4..16 / AAD-length encodings, XTS unit sizes) cases; library must equal the reference byte for byte one-shot, streaming and in place, decrypt(encrypt) = id, outlen <= the size reported for out=NULL. Exploration only, not exhaustive over lengths.",
+   note="Trusted: OpenSSL 3.0 EVP (SM4/AES ECB,CBC,CTR,OFB,CFB128, AES-GCM/CCM/XTS, ChaCha20); vlib/ref/modes.py and zuc.py (validated at import on published and repo vectors). Messages > 64 KiB, CCM nonce 9 with >= 64 KiB payload and AAD >= 2^32 not generated. CBC-MAC of the empty message excluded.",
+   design="4/C04"),
+ "C05": dict(level="fault_enumeration", technique="per generated instance, exhaustive enumeration of the single-edit neighbourhood (all bit flips of nonce/AAD/ciphertext/tag, all truncations, all 256 one-byte extensions) through one-shot and streaming decryptors; reject-all oracle with a positive control",
+   text="For each of SM4-GCM, AES-GCM, SM4-CCM (one-shot), SM4-GCM / SM4-CBC+SM3-HMAC / SM4-CTR+SM3-HMAC (streaming, generated chunking): 160 (quick) / 2000 (thorough) instances with AAD 0..24, message 0..48, every tag length; the neighbourhood is complete per instance, sampled over keys/nonces/lengths.",
+   note="Multi-bit forgeries only via C04's model agreement; accidental tag collision probability <= 2^-32 per neighbour (CCM 4-byte tags). Known finding: the two SM3-HMAC compositions do not authenticate the IV (format pinned by the repository's own test).",
+   design="4/C05"),
 }
 
 NOT_YET = {
